@@ -70,7 +70,7 @@ func (r *Root) Stop() { close(r.StopCh) }
 
 // ---- filters of the small universe -----------------------------------------------------
 
-var FilterNames = []string{"Null", "All", "l=1", "l=0", "name=a", "FN(l==1)", "And(l=1,name=a)", "And(l=1,name=b)"}
+var FilterNames = []string{"Null", "All", "l=1", "l=0", "name=a", "FN(l==1)", "And(l=1,name=a)", "And(l=1,name=b)", "name in {a,b}", "name=a or ns=ns"}
 
 func MkFilter(i int) filter.Filter {
 	switch i {
@@ -89,6 +89,12 @@ func MkFilter(i int) filter.Filter {
 	case 7:
 		// same first child as 6, different second child
 		return filter.And(filter.Labels(map[string]string{"l": "1"}), filter.NSName(nsname.New("ns", "b")))
+	case 8:
+		// widens 4 by a second full id
+		return filter.NSName(nsname.New("ns", "a"), nsname.New("ns", "b"))
+	case 9:
+		// widens 4 by a partial (namespace wildcard) id
+		return filter.NSName(nsname.New("ns", "a"), nsname.New("ns", ""))
 	default:
 		return filter.FN(func(o metav1.Object) bool { return o.GetLabels()["l"] == "1" })
 	}
@@ -109,6 +115,10 @@ func RefAccept(i int, o metav1.Object) bool {
 		return o.GetLabels()["l"] == "1" && o.GetNamespace() == "ns" && o.GetName() == "a"
 	case 7:
 		return o.GetLabels()["l"] == "1" && o.GetNamespace() == "ns" && o.GetName() == "b"
+	case 8:
+		return o.GetNamespace() == "ns" && (o.GetName() == "a" || o.GetName() == "b")
+	case 9:
+		return o.GetNamespace() == "ns"
 	default:
 		return o.GetNamespace() == "ns" && o.GetName() == "a"
 	}
@@ -292,6 +302,14 @@ func (n *Node) Consume(withGet bool) {
 			if err == nil && got != nil {
 				if Ver(got) < Ver(o) {
 					n.GetOlder = append(n.GetOlder, fmt.Sprintf("after %s Get returned %s", EventString(ev), ObjString(got)))
+				}
+			}
+			// List is a separate read path of the cache: it may not lag behind either
+			if l, err := n.Cache().List(); err == nil {
+				for _, x := range l {
+					if Key(x) == Key(o) && Ver(x) < Ver(o) {
+						n.GetOlder = append(n.GetOlder, fmt.Sprintf("after %s List returned %s", EventString(ev), ObjString(x)))
+					}
 				}
 			}
 		}
